@@ -18,10 +18,12 @@ let () = register "c93prep" (fun args ->
   | [content] -> show_outcome (fun l -> "OK " ^ hex_of_zlist l) (c93_prepare (zlist_of_hex content))
   | _ -> "BAD")
 
+(* specification oracle: SOME <text> <text of the data characters = expected Content()> - *)
 let () = register "c93dec" (fun args ->
   match args with
   | [cs; full; bits] ->
-    (match c93_decode (cs = "1") (full = "1") (bools_of_string bits) with
-     | Some l -> "SOME " ^ hex_of_zlist l
-     | None -> "NONE")
+    let b = bools_of_string bits in
+    (match c93_decode (cs = "1") (full = "1") b, c93_decode_values (cs = "1") b with
+     | Some t, Some vals -> Printf.sprintf "SOME %s %s -" (hex_of_zlist t) (hex_of_zlist (c93_values_text vals))
+     | _ -> "NONE")
   | _ -> "BAD")
